@@ -146,8 +146,7 @@ def run(chk, repo: Repo):
     from ..gram import gram_orientation
     gram_orientation(chk, repo, "C03-R6", only={"Gaussian._gradient"})
     from ..gram import same_orientation_application
-    if same_orientation_application(chk, repo, "C03-R6") < 1:
-        raise AnchorError("no applied Gram product sqrtprec.T @ (sqrtprec @ v) found in Gaussian (the gradient confirmed by hand)")
+    same_orientation_application(chk, repo, "C03-R6")          # (the orientation rule above carries the non-vacuity floor)
     chk.rule("C03-R7", "values memoised on a density (lazy caches read by gradient or log-density) are reset by every writer of the fields they "
                        "were computed from, so gradient and log-density never refer to different parameter values", floor=2)
     from ..cachecoh import cache_coherence
